@@ -101,8 +101,15 @@ void snoopy_tsrm_ctor ()
 
     // Forked child whose turn to run snoopy_tsrm_atfork_child() has not come yet: the mutex is still held on behalf
     // of a thread of the parent process and would never be released - do the child-side cleanup now.
+    // (A vfork() child made by the forking thread itself - from an atfork handler of the application - has another
+    // process ID too, but it IS that thread as far as the mutex is concerned, lives in the parent's memory and must not
+    // clean anything there: it can take the recursive mutex, a forked child cannot.)
     if ((SNOOPY_TRUE == snoopy_tsrm_forkInProgress) && (getpid() != snoopy_tsrm_forkParentPid)) {
-        snoopy_tsrm_atfork_child();
+        if (0 == pthread_mutex_trylock(&snoopy_tsrm_threadRepo_mutex)) {
+            pthread_mutex_unlock(&snoopy_tsrm_threadRepo_mutex);
+        } else {
+            snoopy_tsrm_atfork_child();
+        }
     }
 
     // Get my thread id - before mutex, no need for mutex here
